@@ -321,7 +321,10 @@ def xor(a: int, b: int) -> int:
     >>> xor(15,6)
     9
     """
-    return a.__xor__(b)
+    # `a ^ b` also tries the reflected operation, so that a python int
+    # on the left of a numpy array works (`a.__xor__(b)` returns
+    # NotImplemented in that case)
+    return a ^ b
 
 
 def randn_c(*args: int) -> np.ndarray:
